@@ -346,6 +346,75 @@ def run_level_work(item):
     return res
 
 
+def rewrite_work(item):
+    """A run that writes its trace over an EXISTING (longer) trace at the same path and is cut short: the real writer, a real
+    file.  Whether the writer truncates the old file is observed from a complete rewrite; the crash states are then
+    new[:P] (+ the old file's bytes from P on, if the writer overwrites in place) for every byte P."""
+    import phyclone.process_trace.process_trace as pt
+
+    old_kind, new_kind = item
+    res = {"item": item, "n": 0, "raised": 0, "problems": [], "truncates": None}
+    d = traces.scratch("c20w_")
+
+    class Mtime0(object):
+        def GzipFile(self, *a, **k):
+            k.setdefault("mtime", 0)
+            return gzip.GzipFile(*a, **k)
+
+        def __getattr__(self, name):
+            return getattr(gzip, name)
+
+    old_gzip = pt.gzip
+    pt.gzip = Mtime0()
+    try:
+        path = os.path.join(d, "trace.pkl.gz")
+        os.mkdir(os.path.join(d, "ref"))
+        fresh = os.path.join(d, "ref", "trace.pkl.gz")  # same base name: gzip stores it in the header
+        r_old, _ = build_results(old_kind)
+        r_new, _ = build_results(new_kind)
+        pt.create_main_run_output(None, path, r_old)
+        old = open(path, "rb").read()
+        pt.create_main_run_output(None, fresh, r_new)
+        new = open(fresh, "rb").read()
+        pt.create_main_run_output(None, path, r_new)
+        after = open(path, "rb").read()
+    except Exception as e:
+        res["problems"].append({"what": "harness: %s: %s" % (type(e).__name__, str(e)[:150])})
+        shutil.rmtree(d, ignore_errors=True)
+        return res
+    finally:
+        pt.gzip = old_gzip
+    try:
+        res["truncates"] = (after == new)
+        if after == new:
+            return res  # the crash states of such a writer are the byte prefixes enumerated above
+        if not (len(after) >= len(new) and after[:len(new)] == new):
+            res["problems"].append({"what": "a complete rewrite over an existing trace left neither the new stream nor the new stream followed by old bytes"})
+            return res
+        outdir = os.path.join(d, "out")
+        os.mkdir(outdir)
+        full = run_readers(fresh, outdir)
+        payload = decompressed(new)
+        for P in range(0, len(new)):
+            content = new[:P] + old[P:]
+            with open(path, "wb") as fh:
+                fh.write(content)
+            got = run_readers(path, outdir)
+            for name, r in got.items():
+                res["n"] += 1
+                if r[0] == "EXC":
+                    res["raised"] += 1
+                elif not (r[1] == full[name][1] and decompressed(content) == payload):
+                    res["problems"].append({"what": "the writer overwrites an existing trace in place: cut after %d of %d bytes it leaves a file from which reader %s produces results (of the earlier run)" % (P, len(new), name)})
+            if len(res["problems"]) >= 3:
+                break
+    except Exception as e:
+        res["problems"].append({"what": "harness: %s: %s" % (type(e).__name__, str(e)[:150])})
+    finally:
+        shutil.rmtree(d, ignore_errors=True)
+    return res
+
+
 def stream_len(kind):
     d = traces.scratch("c20l_")
     try:
@@ -362,7 +431,7 @@ def main(tier, seed):
                 "write_map_results, write_consensus_results and write_topology_report in one process and at one path, after the complete file was read there (must raise, or - only when the prefix "
                 "still decompresses to the complete payload - give output byte-identical to the complete file's); ENOSPC "
                 "injected at EVERY write-call boundary of the writer; whole-run crash points: real run() with 1-3 chains (in-process pool) writing through a session device, the file "
-                "content after every write call of every write session read by the three readers; a case is non-trivial when the prefix is non-empty")
+                "content after every write call of every write session read by the three readers; rewrite over an existing longer trace (real file): if the writer does not truncate, every byte P with content new[:P]+old[P:]; a case is non-trivial when the prefix is non-empty")
     chk.assumptions = ["gzip header time stamp fixed to 0 so the stream is reproducible", "crash = truncation at a byte; torn writes inside one write call are covered because every byte prefix is enumerated"]
     kinds = ["one-chain", "two-chains", "clustered", "six-chains", "nine-chains"] + (["four-chains", "many-entries", "big-data"] if tier == "thorough" else [])
     items = []
@@ -403,6 +472,15 @@ def main(tier, seed):
         for pr in r["problems"][:3]:
             chk.violation({"sub": "run-level-crash", "chains": r["item"][0]}, {"chains": r["item"][0], "completion_order": list(r["item"][1]), "problem": pr["what"]}, {"run_level": [r["item"][0], list(r["item"][1])]})
     chk.note("whole_run_crash_points", rinfo)
+    # a run cut short while writing over an existing trace
+    winfo = []
+    for r in pool_imap(rewrite_work, [("two-chains", "one-chain"), ("nine-chains", "six-chains")], chunksize=1):
+        chk.evaluations += max(r["n"], 1)
+        chk.n_nontrivial_extra += max(r["n"], 1)
+        winfo.append({"old,new": list(r["item"]), "writer_truncates_the_existing_file": r["truncates"], "crash_states_x_readers": r["n"]})
+        for pr in r["problems"][:3]:
+            chk.violation({"sub": "rewrite-over-existing-trace"}, {"old,new": list(r["item"]), "problem": pr["what"]}, {"rewrite": list(r["item"])})
+    chk.note("rewrite_over_existing_trace", winfo)
     for k in kinds + ["long-chain"]:
         r = enospc_work(k)
         chk.evaluations += r["n"]
@@ -419,6 +497,10 @@ def main(tier, seed):
 def replay(path):
     body = json.load(open(path))
     rp = body["replay"]
+    if "rewrite" in rp:
+        r = rewrite_work(tuple(rp["rewrite"]))
+        print(r["problems"])
+        return 1 if r["problems"] else 0
     if "run_level" in rp:
         r = run_level_work((rp["run_level"][0], tuple(rp["run_level"][1])))
         print(r["problems"])
